@@ -44,6 +44,10 @@ type Route struct {
 	// for a handler with the meta.User signature that is a function/method of a loaded package: does its body
 	// mention the user parameter at all? "yes" | "no" | "unknown"
 	UsesUser string `json:"uses_user"`
+	// authorization decisions the user argument reaches (see guardsOfHandler): "admin" (AuthorizeUnrestricted),
+	// "db:ReadPrivilege" / "db:WritePrivilege" (AuthorizeDatabase), "write" (WriteAuthorizer.AuthorizeWrite of the
+	// user's ID), "query" (AuthorizeQuery); "?" when the handler could not be resolved
+	Guards []string `json:"guards"`
 }
 
 type WrapRule struct {
@@ -78,11 +82,20 @@ type Out struct {
 	Problems          []string   `json:"problems"`
 	Packages          []string   `json:"packages"`
 	Privileges        []StmtPriv `json:"privileges"`
+	RwRules           []RwRule   `json:"rw_rules"`
+}
+
+// one arm of the statement type switch of (*UserInfo).AuthorizeQueryForRwUser, in a canonical rendering of what it does
+// (continue / refuse / if <cond> { .. } / set <lhs> = <rhs>); Type "<tail>" is what follows the switch
+type RwRule struct {
+	Type   string `json:"type"`
+	Action string `json:"action"`
 }
 
 // one ExecutionPrivilege literal found in a RequiredPrivileges method
 type PrivEntry struct {
 	Admin     bool   `json:"admin"`
+	Rwuser    bool   `json:"rwuser"`
 	Name      string `json:"name"`      // "" or the expression that names the database (s.Database ...)
 	Privilege string `json:"privilege"` // ReadPrivilege | WritePrivilege | AllPrivileges | NoPrivileges | <expr>
 	Cond      string `json:"cond"`      // enclosing if-conditions ("" = unconditional)
@@ -364,6 +377,7 @@ func main() {
 	scanDirectMux(repo, pkgs)
 	scanCreds(repo, httpd)
 	scanPrivileges(repo)
+	scanRwRules(repo)
 	if out.Problems == nil {
 		out.Problems = []string{}
 	}
@@ -594,8 +608,10 @@ func emitRoute(repo string, p *packages.Package, fields map[string]ast.Expr, h a
 		}
 	}
 	r.UsesUser = "unknown"
+	r.Guards = []string{}
 	if r.Sig == "user" && h != nil {
 		r.UsesUser = usesUser(p, h)
+		r.Guards = guardsOfHandler(p, h)
 	}
 	out.Routes = append(out.Routes, r)
 }
@@ -661,6 +677,346 @@ func funcUsesThird(info *types.Info, ft *ast.FuncType, body *ast.BlockStmt) stri
 		return "yes"
 	}
 	return "no"
+}
+
+
+// ---------------------------------------------------------------------------------------------------------------
+// Guards: which authorization decisions does the user argument of a handler reach?
+//
+// A *decision* is a call
+//     X.AuthorizeUnrestricted()                 -> "admin"
+//     X.AuthorizeDatabase(P, ..)                -> "db:P"
+//     X.AuthorizeQuery(..) / _.AuthorizeQuery(.., X, ..)   -> "query"
+//     _.AuthorizeWrite(X.ID(), ..)              -> "write"
+// where X is the tracked user parameter. It only counts when it is *decisive*: it occurs in the condition (or init
+// statement) of an `if` one of whose branches leaves (return / continue / break), in a `return` expression, in a case
+// expression of a switch clause that leaves, or on the right-hand side of an assignment that is immediately followed
+// (anywhere later in the same function) by such an `if` over the assigned variable. A call G(.., X, ..) of a function declared in a loaded package in a
+// decisive position contributes the decisions G's parameter reaches (transitively; cycles cut).
+// A call statement G(.., X, ..) of a function without results counts as well when it is the last statement of the
+// body (the request is handed on: nothing happens after G returns).
+// So `Authorizer: h.getAuthorizer(user)` (chooses a fine-grained authorizer, refuses nobody) or logging user.ID()
+// contribute nothing.
+
+type guardKey struct {
+	fn  types.Object
+	idx int
+}
+
+var guardMemo = map[guardKey][]string{}
+var guardBusy = map[guardKey]bool{}
+
+func declOf(fn *types.Func) (*packages.Package, *ast.FuncDecl) {
+	for _, q := range allPkgs {
+		if q.Types != fn.Pkg() {
+			continue
+		}
+		for _, f := range q.Syntax {
+			for _, d := range f.Decls {
+				fd, ok := d.(*ast.FuncDecl)
+				if ok && q.TypesInfo.Defs[fd.Name] == fn && fd.Body != nil {
+					return q, fd
+				}
+			}
+		}
+	}
+	return nil, nil
+}
+
+func paramObjs(info *types.Info, ft *ast.FuncType) []types.Object {
+	var res []types.Object
+	if ft.Params == nil {
+		return res
+	}
+	for _, f := range ft.Params.List {
+		if len(f.Names) == 0 {
+			res = append(res, nil)
+		}
+		for _, n := range f.Names {
+			if n.Name == "_" {
+				res = append(res, nil)
+			} else {
+				res = append(res, info.Defs[n])
+			}
+		}
+	}
+	return res
+}
+
+func leaves(n ast.Node) bool {
+	if n == nil {
+		return false
+	}
+	found := false
+	ast.Inspect(n, func(c ast.Node) bool {
+		switch x := c.(type) {
+		case *ast.FuncLit:
+			return false
+		case *ast.ReturnStmt:
+			found = true
+		case *ast.BranchStmt:
+			if x.Tok == token.CONTINUE || x.Tok == token.BREAK {
+				found = true
+			}
+		}
+		return !found
+	})
+	return found
+}
+
+func mentionsObj(info *types.Info, n ast.Node, objs map[types.Object]bool) bool {
+	found := false
+	ast.Inspect(n, func(c ast.Node) bool {
+		if id, ok := c.(*ast.Ident); ok && info.Uses[id] != nil && objs[info.Uses[id]] {
+			found = true
+		}
+		return !found
+	})
+	return found
+}
+
+// decisiveRoots: the expressions of a function body whose value decides whether the function goes on
+func decisiveRoots(info *types.Info, body *ast.BlockStmt) []ast.Node {
+	var roots []ast.Node
+	ifLeaves := func(s *ast.IfStmt) bool { return leaves(s.Body) || leaves(s.Else) }
+	if n := len(body.List); n > 0 {
+		if es, ok := body.List[n-1].(*ast.ExprStmt); ok {
+			if call, ok := es.X.(*ast.CallExpr); ok {
+				if tv, ok := info.Types[call]; ok {
+					if tup, ok := tv.Type.(*types.Tuple); ok && tup.Len() == 0 {
+						roots = append(roots, call)
+					}
+				}
+			}
+		}
+	}
+	ast.Inspect(body, func(c ast.Node) bool {
+		switch x := c.(type) {
+		case *ast.FuncLit:
+			return false
+		case *ast.IfStmt:
+			if ifLeaves(x) {
+				roots = append(roots, x.Cond)
+				if x.Init != nil {
+					roots = append(roots, x.Init)
+				}
+			}
+		case *ast.ReturnStmt:
+			for _, r := range x.Results {
+				roots = append(roots, r)
+			}
+		case *ast.CaseClause:
+			lv := false
+			for _, st := range x.Body {
+				if leaves(st) {
+					lv = true
+				}
+			}
+			if lv {
+				for _, e := range x.List {
+					roots = append(roots, e)
+				}
+			}
+		case *ast.AssignStmt:
+			// v := G(..) / v = G(..) where some later `if` of this function that leaves tests v
+			objs := map[types.Object]bool{}
+			for _, l := range x.Lhs {
+				if id, ok := l.(*ast.Ident); ok {
+					if o := info.Defs[id]; o != nil {
+						objs[o] = true
+					}
+					if o := info.Uses[id]; o != nil {
+						objs[o] = true
+					}
+				}
+			}
+			if len(objs) > 0 {
+				tested := false
+				ast.Inspect(body, func(d ast.Node) bool {
+					if _, ok := d.(*ast.FuncLit); ok {
+						return false
+					}
+					if is, ok := d.(*ast.IfStmt); ok && is.Pos() > x.End() && ifLeaves(is) && mentionsObj(info, is.Cond, objs) {
+						tested = true
+					}
+					return !tested
+				})
+				if tested {
+					for _, r := range x.Rhs {
+						roots = append(roots, r)
+					}
+				}
+			}
+		}
+		return true
+	})
+	return roots
+}
+
+func isObjIdent(info *types.Info, e ast.Expr, obj types.Object) bool {
+	id, ok := e.(*ast.Ident)
+	return ok && obj != nil && info.Uses[id] == obj
+}
+
+func guardsIn(q *packages.Package, body *ast.BlockStmt, obj types.Object) map[string]bool {
+	res := map[string]bool{}
+	if obj == nil || body == nil {
+		return res
+	}
+	info := q.TypesInfo
+	for _, root := range decisiveRoots(info, body) {
+		ast.Inspect(root, func(c ast.Node) bool {
+			if _, ok := c.(*ast.FuncLit); ok {
+				return false
+			}
+			call, ok := c.(*ast.CallExpr)
+			if !ok {
+				return true
+			}
+			if sel, ok := call.Fun.(*ast.SelectorExpr); ok {
+				if isObjIdent(info, sel.X, obj) {
+					switch sel.Sel.Name {
+					case "AuthorizeUnrestricted":
+						res["admin"] = true
+					case "AuthorizeDatabase":
+						p := "?"
+						if len(call.Args) > 0 {
+							p = render(call.Args[0])
+							if i := strings.LastIndex(p, "."); i >= 0 {
+								p = p[i+1:]
+							}
+						}
+						res["db:"+p] = true
+					case "AuthorizeQuery":
+						res["query"] = true
+					}
+				}
+				if sel.Sel.Name == "AuthorizeWrite" {
+					for _, a := range call.Args {
+						if ic, ok := a.(*ast.CallExpr); ok {
+							if is, ok := ic.Fun.(*ast.SelectorExpr); ok && is.Sel.Name == "ID" && isObjIdent(info, is.X, obj) {
+								res["write"] = true
+							}
+						}
+					}
+				}
+				if sel.Sel.Name == "AuthorizeQuery" {
+					for _, a := range call.Args {
+						if isObjIdent(info, a, obj) {
+							res["query"] = true
+						}
+					}
+				}
+			}
+			// the user handed on to a function we can see
+			var fid *ast.Ident
+			switch f := call.Fun.(type) {
+			case *ast.Ident:
+				fid = f
+			case *ast.SelectorExpr:
+				fid = f.Sel
+			}
+			if fid != nil {
+				if fn, ok := info.Uses[fid].(*types.Func); ok {
+					for i, a := range call.Args {
+						if isObjIdent(info, a, obj) {
+							for _, g := range guardsOfFunc(fn, i) {
+								res[g] = true
+							}
+						}
+					}
+				}
+			}
+			return true
+		})
+	}
+	return res
+}
+
+func guardsOfFunc(fn *types.Func, idx int) []string {
+	k := guardKey{fn, idx}
+	if g, ok := guardMemo[k]; ok {
+		return g
+	}
+	if guardBusy[k] {
+		return nil
+	}
+	guardBusy[k] = true
+	defer delete(guardBusy, k)
+	q, fd := declOf(fn)
+	if fd == nil {
+		guardMemo[k] = nil
+		return nil
+	}
+	ps := paramObjs(q.TypesInfo, fd.Type)
+	var res []string
+	if idx < len(ps) && ps[idx] != nil {
+		for g := range guardsIn(q, fd.Body, ps[idx]) {
+			res = append(res, g)
+		}
+	}
+	sort.Strings(res)
+	guardMemo[k] = res
+	return res
+}
+
+// guardsOfHandler: the handler expression of a route with the authenticated signature
+func guardsOfHandler(p *packages.Package, h ast.Expr) []string {
+	lit := func(q *packages.Package, fl *ast.FuncLit) []string {
+		ps := paramObjs(q.TypesInfo, fl.Type)
+		res := []string{}
+		if len(ps) == 3 && ps[2] != nil {
+			for g := range guardsIn(q, fl.Body, ps[2]) {
+				res = append(res, g)
+			}
+		}
+		sort.Strings(res)
+		return res
+	}
+	var id *ast.Ident
+	switch x := h.(type) {
+	case *ast.SelectorExpr:
+		id = x.Sel
+	case *ast.Ident:
+		id = x
+	case *ast.FuncLit:
+		return lit(p, x)
+	case *ast.CallExpr:
+		// adapter call such as authenticatedHandler(inner): the function literal it returns is the handler
+		var fid *ast.Ident
+		switch f := x.Fun.(type) {
+		case *ast.Ident:
+			fid = f
+		case *ast.SelectorExpr:
+			fid = f.Sel
+		}
+		if fid != nil {
+			if fn, ok := p.TypesInfo.Uses[fid].(*types.Func); ok {
+				if q, fd := declOf(fn); fd != nil && len(fd.Body.List) == 1 {
+					if rs, ok := fd.Body.List[0].(*ast.ReturnStmt); ok && len(rs.Results) == 1 {
+						if fl, ok := rs.Results[0].(*ast.FuncLit); ok {
+							return lit(q, fl)
+						}
+					}
+				}
+			}
+		}
+		return []string{"?"}
+	default:
+		return []string{"?"}
+	}
+	fn, ok := p.TypesInfo.Uses[id].(*types.Func)
+	if !ok {
+		return []string{"?"}
+	}
+	if _, fd := declOf(fn); fd == nil {
+		return []string{"?"}
+	}
+	res := guardsOfFunc(fn, 2)
+	if res == nil {
+		res = []string{}
+	}
+	return res
 }
 
 func findMethod(p *packages.Package, recv, name string) (*ast.FuncDecl, *ast.File) {
@@ -1165,6 +1521,11 @@ func scanPrivileges(repo string) {
 							if v != "true" && v != "false" {
 								problem("influxql %s.RequiredPrivileges: Admin is not a literal: %s", sp.Type, v)
 							}
+						case "Rwuser":
+							e.Rwuser = v == "true"
+							if v != "true" && v != "false" {
+								problem("influxql %s.RequiredPrivileges: Rwuser is not a literal: %s", sp.Type, v)
+							}
 						case "Name":
 							e.Name = strings.Trim(v, "\"")
 						case "Privilege":
@@ -1208,7 +1569,7 @@ func scanPrivileges(repo string) {
 					case *ast.AssignStmt:
 						// ep[0].Privilege = X style adjustments
 						for i, lhs := range x.Lhs {
-							if sel, ok := lhs.(*ast.SelectorExpr); ok && i < len(x.Rhs) && (sel.Sel.Name == "Privilege" || sel.Sel.Name == "Admin" || sel.Sel.Name == "Name") {
+							if sel, ok := lhs.(*ast.SelectorExpr); ok && i < len(x.Rhs) && (sel.Sel.Name == "Privilege" || sel.Sel.Name == "Admin" || sel.Sel.Name == "Name" || sel.Sel.Name == "Rwuser") {
 								sp.Entries = append(sp.Entries, PrivEntry{Name: "assign " + rnd(lhs), Privilege: rnd(x.Rhs[i]), Cond: strings.Join(conds, " && ")})
 							}
 						}
@@ -1228,4 +1589,105 @@ func scanPrivileges(repo string) {
 		}
 	}
 	sort.Slice(out.Privileges, func(i, j int) bool { return out.Privileges[i].Type < out.Privileges[j].Type })
+}
+
+// scanRwRules: the statement cases of (*UserInfo).AuthorizeQueryForRwUser (lib/util/lifted/influx/meta/authorizer.go)
+func scanRwRules(repo string) {
+	out.RwRules = []RwRule{}
+	file := filepath.Join(repo, metaSuffix, "authorizer.go")
+	pfset := token.NewFileSet()
+	f, err := parser.ParseFile(pfset, file, nil, 0)
+	if err != nil {
+		problem("authorizer.go: %v", err)
+		return
+	}
+	rnd := func(n ast.Node) string {
+		var b bytes.Buffer
+		_ = printer.Fprint(&b, pfset, n)
+		return strings.Join(strings.Fields(b.String()), " ")
+	}
+	var acts func(list []ast.Stmt) string
+	act := func(st ast.Stmt) string {
+		switch x := st.(type) {
+		case *ast.BranchStmt:
+			return strings.ToLower(x.Tok.String())
+		case *ast.ReturnStmt:
+			if len(x.Results) == 1 && rnd(x.Results[0]) == "nil" {
+				return "accept"
+			}
+			if len(x.Results) == 1 {
+				if u, ok := x.Results[0].(*ast.UnaryExpr); ok {
+					if cl, ok := u.X.(*ast.CompositeLit); ok && rnd(cl.Type) == "ErrAuthorize" {
+						return "refuse"
+					}
+				}
+			}
+			return "return " + rnd(x)
+		case *ast.IfStmt:
+			r := "if " + rnd(x.Cond) + " { " + acts(x.Body.List) + " }"
+			if x.Init != nil {
+				r = "with " + rnd(x.Init) + " " + r
+			}
+			if x.Else != nil {
+				if b, ok := x.Else.(*ast.BlockStmt); ok {
+					r += " else { " + acts(b.List) + " }"
+				} else {
+					r += " else " + rnd(x.Else)
+				}
+			}
+			return r
+		case *ast.AssignStmt:
+			return "set " + rnd(x)
+		case *ast.RangeStmt:
+			return "range " + rnd(x.X) + " { " + acts(x.Body.List) + " }"
+		}
+		return "stmt " + rnd(st)
+	}
+	acts = func(list []ast.Stmt) string {
+		var parts []string
+		for _, st := range list {
+			parts = append(parts, act(st))
+		}
+		return strings.Join(parts, "; ")
+	}
+	found := false
+	for _, d := range f.Decls {
+		fd, ok := d.(*ast.FuncDecl)
+		if !ok || fd.Name.Name != "AuthorizeQueryForRwUser" || fd.Body == nil {
+			continue
+		}
+		found = true
+		ast.Inspect(fd.Body, func(n ast.Node) bool {
+			rs, ok := n.(*ast.RangeStmt)
+			if !ok {
+				return true
+			}
+			for i, st := range rs.Body.List {
+				ts, ok := st.(*ast.TypeSwitchStmt)
+				if !ok {
+					continue
+				}
+				for _, c := range ts.Body.List {
+					cc := c.(*ast.CaseClause)
+					a := acts(cc.Body)
+					if cc.List == nil {
+						out.RwRules = append(out.RwRules, RwRule{"<default>", a})
+					}
+					for _, t := range cc.List {
+						name := rnd(t)
+						name = strings.TrimPrefix(name, "*")
+						if j := strings.LastIndex(name, "."); j >= 0 {
+							name = name[j+1:]
+						}
+						out.RwRules = append(out.RwRules, RwRule{name, a})
+					}
+				}
+				out.RwRules = append(out.RwRules, RwRule{"<tail>", acts(rs.Body.List[i+1:])})
+			}
+			return false
+		})
+	}
+	if !found {
+		problem("authorizer.go: AuthorizeQueryForRwUser not found")
+	}
 }
